@@ -5,7 +5,7 @@
 # tools/mutrun.sh for running the check. Prints a summary and writes <dir>/confirm.txt
 set -u
 ID=$1; D=$(realpath $2); shift 2
-WT=/tmp/seedchk
+WT=/tmp/seedchk-$ID
 if [ ! -d $WT ]; then git -C /repo worktree add -q --detach $WT HEAD || exit 2; fi
 git -C $WT checkout -q --detach $(git -C /repo rev-parse HEAD) 2>/dev/null
 git -C $WT checkout -q -- . && git -C $WT clean -fdq -e target
